@@ -124,6 +124,15 @@ def warm_up():
 
     d = tempfile.mkdtemp(dir="/tmp", prefix="c19w-")
     _ROOTS.append(d)
+    cwd0 = os.getcwd()
+
+    def quiet(fn, *a):
+        # only the imports matter here; what the calls return is judged later, in the children
+        try:
+            fn(*a)
+        except Exception:  # noqa: BLE001
+            pass
+
     try:
         with open(os.path.join(d, "t.txt"), "w") as f:
             f.write("x\n")
@@ -133,24 +142,24 @@ def warm_up():
             f.write("pa: t.txt\n")
         with open(os.path.join(d, "c.yaml"), "w") as f:
             f.write("pa: t.txt\nlst: l.txt\ndct: {k: t.txt}\ninner: i.yaml\n")
+        with open(os.path.join(d, "bad.yaml"), "w") as f:
+            f.write("{\n")
         for kw in ({}, {"default_config_files": [os.path.join(d, "c.yaml")]}):
             p = build_parser(3, **kw)
-            p.parse_args(["--cfg", os.path.join(d, "c.yaml")])
-            p.parse_path(os.path.join(d, "c.yaml"))
-            try:
-                p.parse_args(["--cfg", os.path.join(d, "nope.yaml")])
-            except jsonargparse.ArgumentError:
-                pass
-            try:
-                p.parse_args(["--pa", os.path.join(d, "nope.txt")])
-            except jsonargparse.ArgumentError:
-                pass
+            quiet(p.parse_args, ["--cfg", os.path.join(d, "c.yaml")])
+            quiet(p.parse_path, os.path.join(d, "c.yaml"))
+            quiet(p.parse_args, ["--cfg", os.path.join(d, "nope.yaml")])
+            quiet(p.parse_args, ["--cfg", os.path.join(d, "bad.yaml")])
+            quiet(p.parse_args, ["--pa", os.path.join(d, "nope.txt")])
+            quiet(p.parse_args, ["--zz", "1"])
         for m in ("fr", "F", "dcc", "fc"):
-            try:
-                jsonargparse.Path(os.path.join(d, "nope", "x"), m)
-            except TypeError:
-                pass
+            quiet(jsonargparse.Path, os.path.join(d, "nope", "x"), m)
     finally:
+        os.chdir(cwd0)
+        import jsonargparse._util as U
+
+        if U.current_path_dir.get() is not None:
+            U.current_path_dir.set(None)
         shutil.rmtree(d, ignore_errors=True)
 
 
@@ -336,9 +345,13 @@ def take_facts(p):
     return f
 
 
-def path_child(root, modes, want_perms):
-    """runs as the unprivileged user: build the fixture, evaluate Path(p, mode) for every spelling x cwd x mode"""
+def path_child(root, modes, want_perms, type_len):
+    """runs as the unprivileged user: build the fixture, evaluate Path(p, mode) for every spelling x cwd x mode;
+    registered path types (typing.path_type) of up to type_len flags must behave like Path(p, mode)"""
     from jsonargparse import Path
+    from jsonargparse.typing import Path_dc, Path_drw, Path_dw, Path_fc, Path_fr, path_type
+
+    named = {"fr": Path_fr, "cf": Path_fc, "dw": Path_dw, "cd": Path_dc, "drw": Path_drw}
 
     os.environ["HOME"] = os.path.join(root, "home")
     names = build_kinds(root)
@@ -347,7 +360,14 @@ def path_child(root, modes, want_perms):
     for m in modes:
         canon.setdefault(canon_mode(m), []).append(m)
     cwds = [("w1", os.path.join(root, "w1")), ("w2", os.path.join(root, "w2", "sub"))]
-    out = {"uid": os.getuid(), "entries": [], "book": [], "perm": []}
+    out = {"uid": os.getuid(), "entries": [], "book": [], "perm": [], "types": [], "type_calls": 0}
+    types = {}
+    for cm, perms in canon.items():
+        if len(cm) <= type_len or cm in named:
+            t = path_type(perms[0])
+            if any(path_type(m) is not t for m in perms) or (cm in named and named[cm] is not t):
+                out["types"].append({"mode": cm, "problem": "path_type returns different classes for the same flags"})
+            types[cm] = t
     for cwd_label, cwd in cwds:
         os.chdir(cwd)
         for label, sp in sps:
@@ -374,10 +394,36 @@ def path_child(root, modes, want_perms):
                     elif o != first and len(out["perm"]) < 20:
                         out["perm"].append({"cwd": cwd_label, "label": label, "modes": [perms[0], m], "outcomes": [first, o]})
                 res[cm] = first
+                if cm in types:
+                    out["type_calls"] += 1
+                    try:
+                        p = types[cm](sp)
+                        o = "ok"
+                        if p.relative != sp or p.absolute != absolute:
+                            o = "ok-but-fields-differ"
+                    except Exception as ex:  # noqa: BLE001
+                        o = classify_error(ex, perms[0])
+                    if o != first and len(out["types"]) < 20:
+                        out["types"].append({"mode": cm, "cwd": cwd_label, "label": label, "type": o, "path": first})
             if os.getcwd() != cwd:
                 raise RuntimeError("Path() changed the working directory")
+            # the cwd= argument: mode "" makes no file-system test at all
+            other = os.path.join(root, "k", "dir")
+            try:
+                p = Path(sp, "", cwd=other)
+                with_cwd = [p.relative, p.absolute, p.cwd]
+                q = Path(p, "")           # copy constructor keeps the three fields
+                if [q.relative, q.absolute, q.cwd] != with_cwd and len(out["book"]) < 20:
+                    out["book"].append({"cwd": cwd_label, "label": label, "spelling": sp, "mode": "", "relative": q.relative, "absolute": q.absolute,
+                                        "pcwd": q.cwd, "want_absolute": p.absolute})
+            except Exception as ex:  # noqa: BLE001
+                with_cwd = ["exc:" + type(ex).__name__, "", ""]
+            want = expanded_l if expanded_l.startswith("/") else os.path.join(other, expanded_l)
+            if with_cwd != [sp, want, other] and len(out["book"]) < 20:
+                out["book"].append({"cwd": cwd_label, "label": label, "spelling": sp, "mode": "", "relative": with_cwd[0], "absolute": with_cwd[1],
+                                    "pcwd": with_cwd[2], "want_absolute": want})
             out["entries"].append({"cwd": cwd_label, "label": label, "spelling": sp, "expanded": expanded, "absolute": absolute,
-                                   "facts": facts, "res": res})
+                                   "facts": facts, "res": res, "with_cwd": with_cwd})
     return out
 
 
@@ -476,7 +522,7 @@ def path_stage(ctx: Ctx, alphabet, nflags):
     # the property's side of _check_mode: a mode is valid iff it is a string over the documented flags [fdrwxcusFDRWX]
     # with no repetition except cc and without f+d, u+d, s+d (documented: "Both modes ... not possible")
     doc_alpha = "fdrwxcusFDRWX"
-    for m in mlist:
+    for m in sorted(mlist, key=lambda m: (len(m), m)):
         want = all(ch in doc_alpha for ch in m) and all(m.count(ch) <= (2 if ch == "c" else 1) for ch in set(m)) \
             and not ("d" in m and ("f" in m or "u" in m or "s" in m))
         if want != real_valid[m]:
@@ -488,7 +534,7 @@ def path_stage(ctx: Ctx, alphabet, nflags):
 
     # --- the fixture, in the unprivileged child
     root = make_root()
-    data = in_child(path_child, root, modes, True)
+    data = in_child(path_child, root, modes, True, 2 if not ctx.thorough else 3)
     if os.getuid() == 0 and data["uid"] != NOBODY:
         raise MachineryError("child did not drop privileges")
     entries = data["entries"]
@@ -499,7 +545,7 @@ def path_stage(ctx: Ctx, alphabet, nflags):
     for e in entries:
         key = (facts_key(e["facts"]), e["spelling"] == "-")
         groups.setdefault(key, []).append(e)
-    cmodes = sorted({canon_mode(m) for m in modes})
+    cmodes = sorted({canon_mode(m) for m in modes}, key=lambda m: (len(m), m))
     lines = []
     keys = sorted(groups)
     for key in keys:
@@ -511,6 +557,8 @@ def path_stage(ctx: Ctx, alphabet, nflags):
     # bookkeeping through the model
     for e in entries:
         lines.append({"op": "mk", "path": e["spelling"], "expanded": e["expanded"], "cwd": os.path.join(root, "w1") if e["cwd"] == "w1" else os.path.join(root, "w2", "sub")})
+    for e in entries:
+        lines.append({"op": "mk", "path": e["spelling"], "expanded": e["expanded"], "cwd": os.path.join(root, "k", "dir")})
     model = None
     try:
         model = ctx.driver("PathMode", lines)
@@ -559,12 +607,20 @@ def path_stage(ctx: Ctx, alphabet, nflags):
     for b in data["perm"][:3]:
         viol.append((len(b["modes"][1]), {"label": b["label"], "cwd": b["cwd"], "spelling": b["label"], "facts": {}}, b["modes"][1], b["outcomes"][1],
                      "Path(%r, %r) gives %s but the same flags in the order " + repr(b["modes"][0]) + " give " + b["outcomes"][0]))
+    for b in data["types"][:3]:
+        viol.append((len(b["mode"]), {"label": b.get("label", "-"), "cwd": b.get("cwd", "w1"), "spelling": b.get("label", "-"), "facts": {}}, b["mode"], b.get("type", "-"),
+                     "path_type(%2$r)(%1$r) gives %3$s but " + (b.get("problem") or "Path(p, mode) gives " + str(b.get("path")))))
+    ctx.evaluations += data["type_calls"]
     # bookkeeping through the model
     if model is not None:
         for e, mk in zip(entries, model[len(keys):]):
             ctx.count()
             if mk["relative"] != e["spelling"] or mk["absolute"] != e["absolute"]:
                 corr_bad.append((0, e, "", e["absolute"], mk["absolute"]))
+        for e, mk in zip(entries, model[len(keys) + len(entries):]):
+            ctx.count()
+            if [mk["relative"], mk["absolute"], mk["cwd"]] != e["with_cwd"]:
+                corr_bad.append((0, e, "cwd=", e["with_cwd"], [mk["relative"], mk["absolute"], mk["cwd"]]))
     corr_bad.sort(key=lambda t: (t[0], t[1]["label"]))
     for _, e, cm, real, mo in corr_bad[:3]:
         ctx.tie_break("correspondence E6 (checkPath/mkPath vs jsonargparse.Path) disagrees",
@@ -576,15 +632,21 @@ def path_stage(ctx: Ctx, alphabet, nflags):
     viol.sort(key=lambda t: (t[0], t[1]["label"]))
     seen = set()
     for _, e, cm, real, text in viol:
-        sig = (text, cm)
-        if sig in seen and len(seen) >= 3:
+        sig = (text, cm, e["label"].split(":")[-1])
+        sig2 = (text, e["label"].split(":")[-1])
+        if sig in seen or (sig2 in seen and len(seen) >= 2):
             continue
         seen.add(sig)
-        ctx.violation(text % (canon_paths(e["spelling"], root), cm, real),
-                      {"kind": "path", "label": e["label"], "cwd": e["cwd"], "mode": cm, "real": real, "facts": e.get("facts")})
-        if len(seen) >= 4:
+        seen.add(sig2)
+        if "%2$r" in text:
+            what = text.replace("%1$r", repr(canon_paths(e["spelling"], root))).replace("%2$r", repr(cm)).replace("%3$s", str(real))
+        else:
+            what = text % (canon_paths(e["spelling"], root), cm, real)
+        ctx.violation(what, {"kind": "path", "label": e["label"], "cwd": e["cwd"], "mode": cm, "real": real, "facts": e.get("facts")})
+        if len(ctx.violations) >= 4:
             break
     ctx.extra["correspondence_disagreements_path"] = len(corr_bad)
+    ctx.extra["exhaustive_scope"] = "path stage: all %d valid mode strings of <= %d flags x %d fixture entries (finite scope enumerated completely)" % (len(modes), nflags, len(entries))
     ctx.extra["distinct_fact_vectors"] = len(keys)
     for e in entries[:2]:
         ctx.sample(canon_paths({"cwd": e["cwd"], "spelling": e["spelling"], "facts": facts_key(e["facts"]), "outcomes": dict(list(e["res"].items())[:6])}, root))
@@ -650,17 +712,732 @@ def build_parser(levels, **kw):
     return level(0)
 
 
+# ---------------------------------------------------------------- load programs
+
+DIRS = ["a", "b", "b/y", "c", "c/d", "e/f/g", "w"]
+F_LIST = "C19-listfile-reresolved"
+LEVEL_KEYS = ["pa", "pb", "pc", "pd", "pl", "lst", "dct", "inner"]
+
+
+class Gen:
+    """generator of one load program; every spelling is unique (fresh names), paths use the literal root /FIX/g<id>"""
+
+    def __init__(self, rng, pid):
+        self.rng = rng
+        self.pid = pid
+        self.base = "/FIX/g%d" % pid
+        self.n = 0
+
+    def fresh(self, prefix, ext=""):
+        self.n += 1
+        return "%s%d%s" % (prefix, self.n, ext)
+
+    def spell(self, from_dir, target, detour=True):
+        """a spelling of `target` (relative to the program's subtree) as seen from directory from_dir"""
+        r = self.rng.random()
+        if not detour and 0.35 <= r < 0.45:
+            r = 0.9
+        if r < 0.2:
+            return self.base + "/" + target
+        rel = os.path.relpath(target, from_dir)
+        if r < 0.35:
+            return "./" + rel
+        if r < 0.45 and from_dir not in ("", "."):
+            # a detour through the parent directory
+            return "../" + os.path.basename(from_dir) + "/" + rel
+        return rel
+
+    def path_node(self, key, cfg_dir):
+        d = self.rng.choice(DIRS)
+        if key in ("pa", "pb"):
+            t = d + "/" + self.fresh("p", ".txt")
+            return {"k": "path", "key": key, "rel": self.spell(cfg_dir, t), "target": t, "kind": "file", "dir": cfg_dir}
+        if key == "pc":
+            t = d + "/" + self.fresh("new", ".txt")
+            return {"k": "path", "key": key, "rel": self.spell(cfg_dir, t), "target": t, "kind": "new", "dir": cfg_dir}
+        t = d + "/" + self.fresh("d")
+        return {"k": "path", "key": key, "rel": self.spell(cfg_dir, t), "target": t, "kind": "dir", "dir": cfg_dir}
+
+    def level(self, k, cfg_dir, keys, depth_left):
+        rng = self.rng
+        nodes = []
+        keys = [x for x in keys if rng.random() < 0.55]
+        rng.shuffle(keys)
+        for key in keys:
+            if key in ("pa", "pb", "pc", "pd"):
+                nodes.append(self.path_node(key, cfg_dir))
+            elif key == "pl":
+                els = []
+                for _ in range(rng.randint(1, 3)):
+                    t = rng.choice(DIRS) + "/" + self.fresh("p", ".txt")
+                    els.append({"rel": self.spell(cfg_dir, t), "target": t})
+                nodes.append({"k": "pathlist", "key": key, "els": els, "dir": cfg_dir})
+            elif key == "lst":
+                d = cfg_dir if rng.random() < 0.4 else rng.choice(DIRS)
+                f = d + "/" + self.fresh("l", ".txt")
+                els = []
+                for _ in range(rng.randint(1, 3)):
+                    t = rng.choice(DIRS) + "/" + self.fresh("p", ".txt")
+                    els.append({"rel": self.spell(d, t), "target": t})
+                r = rng.random()
+                if r < 0.45:
+                    ref = self.base + "/" + f
+                elif r < 0.7 and d == cfg_dir:
+                    ref = os.path.basename(f)
+                else:
+                    # no detour: a list file's spelling is resolved a second time from another directory, where the lexical
+                    # normalisation of `x/../` (model, list_stable) equals the kernel's only if x exists there
+                    ref = self.spell(cfg_dir, f, detour=False)
+                nodes.append({"k": "list", "key": key, "ref": ref, "file": f, "els": els, "yaml": rng.random() < 0.3, "dir": cfg_dir, "fdir": d})
+            elif key == "dct":
+                d = rng.choice(DIRS)
+                f = d + "/" + self.fresh("m", ".yaml")
+                items = []
+                for _ in range(rng.randint(1, 3)):
+                    t = rng.choice(DIRS) + "/" + self.fresh("p", ".txt")
+                    items.append({"k": "path", "key": self.fresh("k"), "rel": self.spell(d, t), "target": t, "kind": "file", "dir": d})
+                nodes.append({"k": "sub", "key": key, "ref": self.spell(cfg_dir, f), "file": f, "items": items, "dir": cfg_dir, "fdir": d})
+            elif key == "inner" and depth_left > 0:
+                d = rng.choice(DIRS)
+                f = d + "/" + self.fresh("c", ".yaml")
+                items = self.level(k + 1, d, LEVEL_KEYS, depth_left - 1)
+                nodes.append({"k": "sub", "key": key, "ref": self.spell(cfg_dir, f), "file": f, "items": items, "dir": cfg_dir, "fdir": d})
+        return nodes
+
+    def program(self):
+        rng = self.rng
+        wdir = rng.choice(DIRS)
+        depth = rng.choice([1, 2, 2, 3, 3])
+        entry = rng.choice(["args", "args", "args", "parse_path", "dcf"])
+        pool = list(LEVEL_KEYS)
+        rng.shuffle(pool)
+        top = []
+        ncfg = 1 if entry != "args" else rng.choice([0, 1, 1, 2])
+        cuts = sorted(rng.randint(0, len(pool)) for _ in range(ncfg))
+        shares = []
+        prev = 0
+        for c in cuts:
+            shares.append(pool[prev:c])
+            prev = c
+        direct = pool[prev:]
+        for share in shares:
+            d = rng.choice(DIRS)
+            f = d + "/" + self.fresh("c", ".yaml")
+            items = self.level(0, d, share, depth - 1) if share else []
+            if not items:
+                items = [self.path_node(rng.choice(["pa", "pb", "pc", "pd"]), d)]   # dedupe_keys keeps one value per position
+            ref = self.base + "/" + f if entry == "dcf" else self.spell(wdir, f)
+            top.append({"k": "sub", "key": "cfg", "ref": ref, "file": f, "items": items, "dir": wdir, "fdir": d})
+        if entry == "args":
+            top += self.level(0, wdir, direct, depth - 1)
+            rng.shuffle(top)
+        elif entry == "dcf":
+            top += self.level(0, wdir, direct, depth - 1)
+        return {"id": self.pid, "wdir": wdir, "entry": entry, "top": top}
+
+
+def all_nodes(nodes):
+    for n in nodes:
+        yield n
+        if n["k"] == "sub":
+            yield from all_nodes(n["items"])
+
+
+def dedupe_keys(prog):
+    """one value per namespace position: drop later nodes that reuse a key at the same position"""
+    def walk(nodes, seen):
+        out = []
+        for n in nodes:
+            if n["key"] != "cfg":
+                if n["key"] in seen:
+                    continue
+                seen.add(n["key"])
+            if n["k"] == "sub" and n["key"] == "cfg":
+                n["items"] = walk(n["items"], seen)       # level-0 config shares the top-level positions
+            elif n["k"] == "sub":
+                n["items"] = walk(n["items"], set())
+            out.append(n)
+        return out
+    prog["top"] = walk(prog["top"], set())
+    return prog
+
+
+def inject_failure(rng, prog):
+    nodes = list(all_nodes(prog["top"]))
+    if not nodes:
+        return None
+    n = rng.choice(nodes)
+    if n["k"] == "path":
+        if n["kind"] == "file":
+            kinds = ["missing", "isdir"]
+            if not n["rel"].startswith("/") and n["dir"] != prog["wdir"]:
+                kinds += ["wrongdir", "wrongdir"]
+        elif n["kind"] == "new":
+            kinds = ["noparent"]
+        else:
+            kinds = ["missing", "isfile"]
+    elif n["k"] == "pathlist":
+        kinds = ["el-missing"]
+    elif n["k"] == "list":
+        kinds = ["missing", "el-missing", "unreadable"]
+    else:
+        kinds = ["missing", "unreadable", "badyaml"]
+        if n["key"] != "dct":
+            kinds.append("unknownkey")
+        if prog["entry"] == "dcf" and n is prog["top"][0]:
+            kinds = ["badyaml", "unknownkey"]
+    n["fail"] = rng.choice(kinds)
+    if n["fail"] == "el-missing":
+        n["fail_el"] = rng.randrange(len(n["els"]))
+    return n["fail"]
+
+
+def norm_join(base, rel):
+    return os.path.normpath(rel if rel.startswith("/") else base + "/" + rel)
+
+
+def list_stable(base, ref):
+    """does the spelling name the same file when resolved again from inside the file's directory?"""
+    first = norm_join(base, ref)
+    return norm_join(os.path.dirname(first), ref) == first
+
+
+def model_items(prog, nodes=None):
+    base = "/FIX/g%d" % prog["id"]
+    out = []
+    for n in (prog["top"] if nodes is None else nodes):
+        if n.get("fail"):
+            out.append({"fail": True})
+        elif n["k"] == "path":
+            out.append({"path": n["rel"]})
+        elif n["k"] == "pathlist":
+            out.extend({"path": e["rel"]} for e in n["els"])
+        elif n["k"] == "list":
+            if n["yaml"]:
+                out.append({"sub": n["ref"], "items": [{"path": e["rel"]} for e in n["els"]]})
+            else:
+                out.append({"list": n["ref"], "rels": [e["rel"] for e in n["els"]]})
+        else:
+            out.append({"sub": n["ref"], "items": model_items(prog, n["items"])})
+    return out
+
+
+def expectation(prog):
+    """the generator's static knowledge: (ok, {triples}, unobservable refs, unstable list present)"""
+    base = "/FIX/g%d" % prog["id"]
+    triples, hidden = set(), set()
+    flags = {"fail": False, "unstable": False}
+
+    def absdir(d):
+        return base + "/" + d
+
+    def triple(rel, d):
+        b = absdir(d)
+        return (rel, rel if rel.startswith("/") else b + "/" + rel, b)
+
+    def walk(nodes):
+        for n in nodes:
+            if n.get("fail"):
+                flags["fail"] = True
+            if n["k"] == "path":
+                triples.add(triple(n["rel"], n["dir"]))
+            elif n["k"] == "pathlist":
+                for e in n["els"]:
+                    triples.add(triple(e["rel"], n["dir"]))
+            elif n["k"] == "list":
+                hidden.add(n["ref"])
+                if not n["yaml"] and not n.get("fail") and not list_stable(absdir(n["dir"]), n["ref"]):
+                    flags["unstable"] = True
+                for e in n["els"]:
+                    triples.add(triple(e["rel"], n["fdir"]))
+            else:
+                triples.add(triple(n["ref"], n["dir"]))
+                walk(n["items"])
+
+    walk(prog["top"])
+    if prog["entry"] == "parse_path" and prog["top"]:
+        # parse_path does not record the path of the file it was given
+        n = prog["top"][0]
+        hidden.add(n["ref"])
+        triples.discard(triple(n["ref"], n["dir"]))
+    return (not flags["fail"]), triples, hidden, flags["unstable"]
+
+
+def yaml_str(s):
+    return json.dumps(s)
+
+
+def materialise(prog, root):
+    """create directories, targets, config files of one program below root/g<id> (run in the child)"""
+    base = os.path.join(root, "g%d" % prog["id"])
+
+    def real(p):
+        return p.replace("/FIX", root, 1) if p.startswith("/FIX") else p
+
+    for d in DIRS:
+        os.makedirs(os.path.join(base, d), exist_ok=True)
+
+    def touch(p, text="x\n"):
+        with open(p, "w") as f:
+            f.write(text)
+
+    def make_target(t, kind, fail, rel, cfg_dir):
+        p = os.path.join(base, t)
+        if fail == "missing" or fail == "el-missing":
+            return
+        if fail == "wrongdir":
+            # exists relative to the process working directory only
+            q = os.path.normpath(os.path.join(base, prog["wdir"], rel))
+            if q != os.path.normpath(p) and q.startswith(base + "/"):
+                os.makedirs(os.path.dirname(q), exist_ok=True)
+                touch(q)
+            return
+        if kind == "file":
+            if fail == "isdir":
+                os.mkdir(p)
+            else:
+                touch(p)
+        elif kind == "dir":
+            if fail == "isfile":
+                touch(p)
+            else:
+                os.mkdir(p)
+        # kind "new": nothing to create
+
+    def value_of(n):
+        if n["k"] == "path":
+            rel = n["rel"]
+            if n.get("fail") == "noparent":
+                rel = os.path.dirname(rel) + "/nodir/" + os.path.basename(rel) if "/" in rel else "nodir/" + rel
+                n["rel_written"] = rel
+            return yaml_str(real(rel))
+        if n["k"] == "pathlist":
+            return "[" + ", ".join(yaml_str(real(e["rel"])) for e in n["els"]) + "]"
+        return yaml_str(real(n["ref"]))
+
+    def write_nodes(nodes):
+        for n in nodes:
+            fail = n.get("fail")
+            if n["k"] == "path":
+                make_target(n["target"], n["kind"], fail, n["rel"], n["dir"])
+            elif n["k"] in ("pathlist", "list"):
+                for i, e in enumerate(n["els"]):
+                    make_target(e["target"], "file", "missing" if fail == "el-missing" and i == n.get("fail_el") else None, e["rel"], n["dir"])
+                if n["k"] == "list" and fail != "missing":
+                    p = os.path.join(base, n["file"])
+                    if n["yaml"]:
+                        touch(p, "".join("- %s\n" % yaml_str(real(e["rel"])) for e in n["els"]))
+                    else:
+                        touch(p, "".join(real(e["rel"]) + "\n" for e in n["els"]))
+                    if fail == "unreadable":
+                        os.chmod(p, 0)
+            else:
+                write_nodes(n["items"])
+                if fail == "missing":
+                    continue
+                p = os.path.join(base, n["file"])
+                if fail == "badyaml":
+                    touch(p, "{\n")
+                    continue
+                text = "".join("%s: %s\n" % (c["key"], value_of(c)) for c in n["items"])
+                if fail == "unknownkey":
+                    text += "zz_unknown: 1\n"
+                touch(p, text or "{}\n")
+                if fail == "unreadable":
+                    os.chmod(p, 0)
+
+    write_nodes(prog["top"])
+    argv = []
+    kw = {}
+    call = ("parse_args", None)
+    top = prog["top"]
+    if prog["entry"] == "parse_path":
+        call = ("parse_path", real(top[0]["ref"]))
+        top = []
+    elif prog["entry"] == "dcf":
+        kw["default_config_files"] = [real(top[0]["ref"])]
+        top = top[1:]
+    for n in top:
+        if n["k"] == "pathlist":
+            argv += ["--" + n["key"], "[" + ", ".join(yaml_str(real(e["rel"])) for e in n["els"]) + "]"]
+        elif n["k"] == "path":
+            v = value_of(n)
+            argv += ["--" + n["key"], json.loads(v)]
+        else:
+            argv += ["--" + n["key"], real(n["ref"])]
+    return os.path.join(base, prog["wdir"]), argv, kw, call
+
+
+def flatten_paths(cfg):
+    from jsonargparse import Namespace, Path
+
+    out = []
+
+    def rec(v):
+        if isinstance(v, Path):
+            out.append([v.relative, v.absolute, v.cwd])
+        elif isinstance(v, Namespace):
+            for x in vars(v).values():
+                rec(x)
+        elif isinstance(v, dict):
+            for x in v.values():
+                rec(x)
+        elif isinstance(v, (list, tuple)):
+            for x in v:
+                rec(x)
+
+    rec(cfg)
+    return out
+
+
+def load_child(root, progs):
+    import jsonargparse._util as U
+    from jsonargparse import ArgumentError
+
+    out = []
+    for prog in progs:
+        W, argv, kw, call = materialise(prog, root)
+        os.chdir(W)
+        res = {}
+        try:
+            parser = build_parser(3, **kw)
+            cfg = parser.parse_path(call[1]) if call[0] == "parse_path" else parser.parse_args(argv)
+            res = {"ok": True, "paths": flatten_paths(cfg)}
+        except ArgumentError as ex:
+            res = {"ok": False, "exc": "ArgumentError", "msg": str(ex)[-300:]}
+        except BaseException as ex:  # noqa: BLE001
+            res = {"ok": False, "exc": type(ex).__name__, "msg": str(ex)[-300:]}
+        res["cwd_after"] = os.getcwd()
+        res["cwd_before"] = W
+        cpd = U.current_path_dir.get()
+        res["cpd_after"] = cpd
+        if cpd is not None:
+            U.current_path_dir.set(None)
+        os.chdir(root)
+        out.append(canon_paths(res, root))
+    return out
+
+
+def judge_load(ctx, prog, real, model):
+    """returns (correspondence problem | None, oracle problem | None, known finding id | None)"""
+    exp_ok, triples, hidden, unstable = expectation(prog)
+    W = "/FIX/g%d/%s" % (prog["id"], prog["wdir"])
+    corr = None
+    if model is not None:
+        if model["ok"] != real["ok"]:
+            corr = "model says %s, parse %s (%s)" % ("ok" if model["ok"] else "fail", "succeeds" if real["ok"] else "fails", real.get("exc"))
+        elif model["cwd"] != real["cwd_after"] or model["cpd"] != real["cpd_after"]:
+            corr = "state after: model cwd=%s cpd=%s, real cwd=%s cpd=%s" % (model["cwd"], model["cpd"], real["cwd_after"], real["cpd_after"])
+        elif real["ok"]:
+            mt = {(t["rel"], t["abs"], t["base"]) for t in model["trace"] if t["rel"] not in hidden}
+            rt = {tuple(t) for t in real["paths"]}
+            if mt != rt:
+                corr = "resolved paths differ: only model %s, only real %s" % (sorted(mt - rt)[:3], sorted(rt - mt)[:3])
+    orc, known = None, None
+    if real["cwd_after"] != W:
+        orc = "working directory after the call is %s, was %s" % (real["cwd_after"], W)
+    elif real["cpd_after"] is not None:
+        orc = "current_path_dir after the call is %r" % (real["cpd_after"],)
+    elif real["ok"] and not exp_ok:
+        orc = "parse succeeds although the program contains a failing item (%s)" % ", ".join(sorted({n["fail"] for n in all_nodes(prog["top"]) if n.get("fail")}))
+    elif not real["ok"] and exp_ok:
+        if unstable:
+            known = F_LIST
+        else:
+            orc = "parse fails (%s: %s) although every path exists relative to its config file" % (real.get("exc"), " ".join(real.get("msg", "").split())[-200:])
+    elif real["ok"]:
+        rt = {tuple(t) for t in real["paths"]}
+        if rt != triples:
+            orc = "path values are not resolved against the directory of their config file: unexpected %s, missing %s" % (sorted(rt - triples)[:3], sorted(triples - rt)[:3])
+    return corr, orc, known
+
+
+def run_programs(ctx, root, progs):
+    reals = in_child(load_child, root, progs)
+    lines = [{"op": "run", "cwd": "/FIX/g%d/%s" % (p["id"], p["wdir"]), "cpd": None, "items": model_items(p)} for p in progs]
+    models = [None] * len(progs)
+    try:
+        models = ctx.driver("PathMode", lines)
+    except MachineryError as ex:
+        if ctx.lean_ok:
+            raise
+        ctx.tie_break("correspondence E6 not runnable (model does not build)", str(ex))
+    return reals, models
+
+
+def shrink_program(ctx, root_maker, prog, still_bad, budget=40):
+    """greedy removal of nodes while the problem persists"""
+    import copy
+
+    cur = copy.deepcopy(prog)
+    trials = 0
+    changed = True
+    while changed and trials < budget:
+        changed = False
+        paths = []
+
+        def collect(nodes, pre):
+            for i, n in enumerate(nodes):
+                paths.append(pre + [i])
+                if n["k"] == "sub":
+                    collect(n["items"], pre + [i])
+
+        collect(cur["top"], [])
+        for pth in sorted(paths, key=len):
+            cand = copy.deepcopy(cur)
+            nodes = cand["top"]
+            for i in pth[:-1]:
+                nodes = nodes[i]["items"]
+            if len(pth) == 1 and cand["entry"] != "args" and pth[0] == 0:
+                continue
+            del nodes[pth[-1]]
+            trials += 1
+            if still_bad(cand):
+                cur = cand
+                changed = True
+                break
+            if trials >= budget:
+                break
+    return cur
+
+
+def load_stage(ctx: Ctx, nprog):
+    rng = ctx.rng
+    from ..lib import corpus as corpus_mod
+
+    progs = []
+    for c in corpus_mod.load(ctx.prop):
+        if c.get("kind") == "load":
+            progs.append(c["prog"])
+    ncorpus = len(progs)
+    for i in range(nprog):
+        g = Gen(rng, 1000 + i)
+        p = dedupe_keys(g.program())
+        if rng.random() < 0.3:
+            inject_failure(rng, p)
+        progs.append(p)
+    for i, p in enumerate(progs):
+        p["id"] = i
+        rebase(p, i)
+    root = make_root()
+    reals, models = run_programs(ctx, root, progs)
+    ncorr = norc = 0
+    for idx, (p, real, model) in enumerate(zip(progs, reals, models)):
+        ctx.count()
+        nodes = list(all_nodes(p["top"]))
+        depth = prog_depth(p["top"])
+        ctx.hist("load_entry", p["entry"])
+        ctx.hist("load_depth", depth)
+        ctx.hist("load_outcome", "ok" if real["ok"] else "fail:" + str(real.get("exc")))
+        for n in nodes:
+            if n.get("fail"):
+                ctx.hist("load_fail_kind", n["k"] + ":" + n["fail"])
+        if depth >= 1 and len(nodes) >= 2:
+            ctx.nontrivial("load|" + json.dumps(model_items(p), sort_keys=True) + "|" + p["wdir"] + "|" + p["entry"])
+        corr, orc, known = judge_load(ctx, p, real, model)
+        if known and ctx.is_open(known):
+            ctx.known(known, "a List[Path] argument rejects a line-per-path list file named by a relative spelling with a directory part (e.g. %s), the absolute spelling is accepted" % next(n["ref"] for n in nodes if n["k"] == "list"))
+        elif known:
+            orc = "parse fails (%s) although every path exists relative to its config file" % " ".join(real.get("msg", "").split())[-200:]
+        if corr:
+            ncorr += 1
+            if ncorr <= 1:
+                def still(c, want="corr"):
+                    r2, m2 = run_programs(ctx, make_root(), [c])
+                    return judge_load(ctx, c, r2[0], m2[0])[0] is not None
+                small = shrink_program(ctx, make_root, p, still, budget=20)
+                r2, m2 = run_programs(ctx, make_root(), [small])
+                ctx.tie_break("correspondence E6 (runItems vs parse_args/parse_path with nested config files) disagrees",
+                              json.dumps({"problem": judge_load(ctx, small, r2[0], m2[0])[0], "prog": small, "real": r2[0], "model": m2[0]})[:1900])
+        if orc:
+            norc += 1
+            if norc > 4:
+                continue
+
+            def still_o(c):
+                r2 = in_child(load_child, make_root(), [c])
+                return judge_load(ctx, c, r2[0], None)[1] is not None
+            small = shrink_program(ctx, make_root, p, still_o, budget=30) if norc <= 2 else p
+            r2 = in_child(load_child, make_root(), [small])
+            _, o2, _ = judge_load(ctx, small, r2[0], None)
+            ctx.violation("nested config files: " + (o2 or orc), {"kind": "load", "prog": small, "real": r2[0], "origin": "corpus" if idx < ncorpus else "generated"})
+    ctx.extra["load_programs"] = len(progs)
+    ctx.extra["correspondence_disagreements_load"] = ncorr
+    for p in progs[ncorpus:ncorpus + 2]:
+        ctx.sample({"wdir": p["wdir"], "entry": p["entry"], "items": model_items(p)})
+
+
+def prog_depth(nodes):
+    d = 0
+    for n in nodes:
+        if n["k"] == "sub":
+            d = max(d, 1 + prog_depth(n["items"]))
+        elif n["k"] == "list":
+            d = max(d, 1)
+    return d
+
+
+def rebase(prog, new_id):
+    """rewrite the /FIX/g<old> prefix of every spelling to /FIX/g<new_id>"""
+    pat = re.compile(r"^/FIX/g\d+(?=/|$)")
+
+    def fix(s):
+        return pat.sub("/FIX/g%d" % new_id, s)
+
+    for n in all_nodes(prog["top"]):
+        for k in ("rel", "ref"):
+            if k in n:
+                n[k] = fix(n[k])
+        for e in n.get("els", []):
+            e["rel"] = fix(e["rel"])
+
+
 def run(ctx: Ctx):
     repo_python_path()
-    ctx.rule = "TODO"
+    ctx.rule = ("path stage: every valid mode string of <=3 (thorough <=4) flags over the alphabet probed from Path._check_mode x fixture entries "
+                "(path kind x spelling x working directory), real Path(p, mode) under uid 65534 vs Lean checkPath on independently taken facts vs the "
+                "docstring oracle; non-trivial = (cwd, entry, flag multiset) whose outcome is a rejection or an acceptance of an existing path. "
+                "load stage: generated programs of nested config files; non-trivial = program with >=1 config level and >=2 nodes, distinct by "
+                "(model items, cwd, entry point)")
+    ctx.assumptions = [
+        "the file system does not change between two probes of one Path() call (facts are one snapshot)",
+        "os.stat/os.access/os.path.realpath/expanduser of the running Python are the oracle of the file system",
+        "URL/fsspec paths, Windows and skip_check are outside; flags u and s only permit",
+        "directories holding config files are not symlinks (os.getcwd() after chdir equals normpath of the joined path)",
+        "list files: nothing else lives where the second resolution of a relative spelling points",
+    ]
     ctx.lean_build(extractors=["path_flags"])
     warm_up()
+    from ..extractors.path_flags import probe_check_mode
     from jsonargparse import Path
 
-    alphabet = "fdrwxcusFDRWX"
+    alphabet = "".join(probe_check_mode(Path._check_mode, "fdrwxcusFDRWX")[0])
+    corpus_paths(ctx)
     path_stage(ctx, alphabet, ctx.budget(3, 4))
+    load_stage(ctx, ctx.budget(400, 5000) * (2 if ctx.search_boost > 1 else 1))
+    ctx.replay_fixed_demos()
+    replay_open_findings(ctx)
+
+
+def corpus_paths(ctx):
+    from ..lib import corpus as corpus_mod
+
+    for c in corpus_mod.load(ctx.prop):
+        if c.get("kind") != "paths":
+            continue
+        res = in_child(path_witnesses_child, make_root(), c["cases"])
+        for w, r in zip(c["cases"], res):
+            ctx.count()
+            if r["deviates"]:
+                fid = finding_of(canon_mode(w["mode"]), r["facts"], r["real"] == "ok") if not r["real"].startswith(("exc:", "pe?")) else None
+                if fid and ctx.is_open(fid):
+                    ctx.known(fid, KNOWN_TEXT[fid] % (w["mode"], w["label"]))
+                else:
+                    ctx.violation("Path(%r, %r) gives %s; every flag satisfied (docstring oracle): %s" % (r["spelling"], w["mode"], r["real"], r["want_ok"]),
+                                  dict(w, kind="path", real=r["real"], facts=r["facts"], origin="corpus"))
+
+
+def path_witnesses_child(root, cases):
+    os.environ["HOME"] = os.path.join(root, "home")
+    names = build_kinds(root)
+    return [path_witness_eval(root, names, w) for w in cases]
+
+
+def replay_open_findings(ctx):
+    for f in ctx.open_findings():
+        w = f["witness"]
+        if w.get("kind") == "path":
+            root = make_root()
+            r = in_child(path_witness_child, root, w)
+            ctx.count()
+            if r["deviates"]:
+                ctx.known(f["id"], f["description"])
+            else:
+                ctx.stale_findings.append(f["id"])
+        elif w.get("kind") == "load":
+            import copy
+
+            prog = copy.deepcopy(w["prog"])
+            reals, models = run_programs(ctx, make_root(), [prog])
+            _, orc, known = judge_load(ctx, prog, reals[0], models[0])
+            ctx.count()
+            if known or orc:
+                ctx.known(f["id"], f["description"])
+            else:
+                ctx.stale_findings.append(f["id"])
+
+
+def path_witness_child(root, w):
+    """re-evaluate one (entry, cwd, mode) of the path fixture; deviates = real outcome differs from the docstring oracle"""
+    from jsonargparse import Path
+
+    os.environ["HOME"] = os.path.join(root, "home")
+    names = build_kinds(root)
+    return path_witness_eval(root, names, w)
+
+
+def path_witness_eval(root, names, w):
+    from jsonargparse import Path
+
+    sps = dict(spellings(root, names))
+    if w["label"] not in sps:
+        return {"real": "?", "want_ok": None, "facts": {}, "spelling": w["label"], "deviates": True}
+    sp = sps[w["label"]]
+    cwd = os.path.join(root, "w1") if w["cwd"] == "w1" else os.path.join(root, "w2", "sub")
+    os.chdir(cwd)
+    expanded = re.sub("^file:///?", "/", os.path.expanduser(sp))
+    absolute = expanded if expanded.startswith("/") else os.path.join(cwd, expanded)
+    facts = take_facts(absolute)
+    try:
+        Path(sp, w["mode"])
+        real = "ok"
+    except Exception as ex:  # noqa: BLE001
+        real = classify_error(ex, w["mode"])
+    want = sat_doc(w["mode"], facts, sp)
+    return {"real": real, "want_ok": want, "facts": facts, "spelling": sp.replace(root, "/FIX"),
+            "deviates": real.startswith("exc:") or real.startswith("pe?") or ((real == "ok") != want)}
 
 
 def replay(ctx: Ctx, body):
     repo_python_path()
-    return 0
+    warm_up()
+    rp = body["replay"]
+    if rp.get("kind") == "path":
+        r = in_child(path_witness_child, make_root(), rp)
+        print("Path(%r, %r) in %s -> %s; every flag satisfied (docstring oracle): %s" % (r["spelling"], rp["mode"], rp["cwd"], r["real"], r["want_ok"]))
+        print("facts:", r["facts"])
+        return 1 if r["deviates"] else 0
+    if rp.get("kind") == "load":
+        import copy
+
+        prog = copy.deepcopy(rp["prog"])
+        ctx.lean_ok = True
+        try:
+            reals, models = run_programs(ctx, make_root(), [prog])
+        except MachineryError:
+            reals, models = in_child(load_child, make_root(), [prog]), [None]
+        corr, orc, known = judge_load(ctx, prog, reals[0], models[0])
+        print("program:", json.dumps({"wdir": prog["wdir"], "entry": prog["entry"], "items": model_items(prog)}))
+        print("real:", json.dumps(reals[0]))
+        print("model:", json.dumps(models[0]))
+        print("oracle:", orc or known or "agrees", "| correspondence:", corr or "agrees")
+        return 1 if (orc or known) else 0
+    if rp.get("kind") == "mode":
+        from jsonargparse import Path
+
+        try:
+            Path._check_mode(rp["mode"])
+            now = True
+        except ValueError:
+            now = False
+        print("_check_mode(%r) valid=%s" % (rp["mode"], now))
+        return 1 if now == rp["real_valid"] else 0
+    if rp.get("kind") == "demo":
+        import subprocess
+
+        from ..lib.common import REPO, VERIF
+
+        p = subprocess.run(["/venv/bin/python", os.path.join(VERIF, rp["demo"])], env=dict(os.environ, PYTHONPATH=REPO))
+        return 1 if p.returncode != 0 else 0
+    print("tie broken without a concrete input:", json.dumps(rp)[:2000])
+    return 1
